@@ -235,4 +235,10 @@ theorem helpers_current_after_history (hist : List Runtime.Step) (s : Runtime.St
     Runtime.Fresh s.disk s.dir (Runtime.compileFrom s.disk s.dir s.names (Runtime.runSteps [] hist)).1 :=
   Runtime.compileFrom_fresh s.disk s.dir s.names _
 
+/-- … and while nothing changes nothing is loaded again: the same directory, every helper loaded and current ⇒ no helper file is executed. -/
+theorem helpers_reused_when_unchanged (disk : Runtime.Disk) (dir : String) (names : List String) (r : Runtime.Registry)
+    (hf : Runtime.Fresh disk dir r) (hl : ∀ n ∈ names, r.any (·.name == n) = true) :
+    Runtime.compileFrom disk dir names r = (r, []) :=
+  Runtime.compileFrom_noexec disk dir names r hf hl
+
 end NadaVerif.C08
